@@ -67,8 +67,12 @@ def match_known(findings, prop, spec, check_desc):
 # ------------------------------------------------------------------------------------------------
 
 def read_harness(name):
-    with open(os.path.join(HARNESS_DIR, name)) as f:
-        return f.read()
+    """`a.rs+b.rs` concatenates several harness files into one module."""
+    out = []
+    for part in name.split("+"):
+        with open(os.path.join(HARNESS_DIR, part)) as f:
+            out.append(f.read())
+    return "\n".join(out)
 
 
 def build_modules(specs):
